@@ -17,9 +17,64 @@ Z3_RLIMIT_THOROUGH = 400_000_000
 WALL_CAP_S = 120                  # safety net only
 
 
+_SYM_CACHE: Dict[int, frozenset] = {}
+
+
+def symbols(e) -> frozenset:
+    """Names of the uninterpreted constants/functions occurring in a term."""
+    key = e.get_id()
+    if key in _SYM_CACHE:
+        return _SYM_CACHE[key]
+    out = set()
+    seen = set()
+    todo = [e]
+    while todo:
+        x = todo.pop()
+        i = x.get_id()
+        if i in seen:
+            continue
+        seen.add(i)
+        if z3.is_quantifier(x):
+            todo.append(x.body())
+            continue
+        if z3.is_app(x):
+            if x.decl().kind() == z3.Z3_OP_UNINTERPRETED:
+                out.add(x.decl().name())
+            todo.extend(x.children())
+    r = frozenset(out)
+    _SYM_CACHE[key] = r
+    return r
+
+
+def relevant_axioms(vc: VC, axioms: List[z3.BoolRef]) -> List[z3.BoolRef]:
+    """An axiom is a fact about particular symbols (an initial heap array, a boxing function, string literals ...): it can only matter
+    to a VC that mentions one of them.  Leaving the others out keeps quantifiers away from the arithmetic-only obligations."""
+    used = set()
+    for p in vc.pc:
+        used |= symbols(p)
+    used |= symbols(vc.goal)
+    out = []
+    changed = True
+    pending = list(axioms)
+    while changed:
+        changed = False
+        rest = []
+        for a in pending:
+            sa = symbols(a)
+            if not sa or (sa & used):
+                out.append(a)
+                if not sa <= used:
+                    used |= sa
+                    changed = True
+            else:
+                rest.append(a)
+        pending = rest
+    return out
+
+
 def vc_to_smt2(vc: VC, axioms: List[z3.BoolRef]) -> str:
     s = z3.Solver()
-    for a in axioms:
+    for a in relevant_axioms(vc, axioms):
         s.add(a)
     for p in vc.pc:
         s.add(p)
@@ -101,7 +156,7 @@ def model_for(vc: VC, axioms: List[z3.BoolRef], timeout_ms: int = 20000) -> Opti
     """Re-solve a refuted VC in-process to obtain a model (used by the replay step)."""
     s = z3.Solver()
     s.set("timeout", timeout_ms)
-    for a in list(axioms) + V.str_axioms():
+    for a in relevant_axioms(vc, list(axioms) + V.str_axioms()):
         s.add(a)
     for p in vc.pc:
         s.add(p)
